@@ -175,6 +175,41 @@ _add("s.lmul.a", "slmul", "slmul", "2s", 1, 2, flags="w")
 _add("s.lsquare.a", "slsquare", "slsquare", "1s", 1, 2, flags="w")
 _add("s.sext", "sext", "sext", "1s", 1, 2, flags="w")
 
+# --- part 6 (harness/c06_conv.C): conversions on a destination that is NOT fresh (prev = its previous contents)
+_add("conv.to_ruint", "mpz_to_ruint_into", "conv_to_ruint", None, 1, 6)
+_add("conv.to_rint", "mpz_to_rint_into", "conv_to_rint", None, 1, 6)
+_add("conv.from_ruint", "ruint_to_mpz_into", "conv_from_ruint", None, 3, 6)
+_add("conv.from_rint", "rint_to_mpz_into", "conv_from_rint", None, 3, 6)
+_add("conv.copies", None, "conv_copies", None, 1, 6)
+_add("conv.rint_from_integer", None, "conv_to_rint", None, 1, 6)
+_add("conv.widen", "sext", "conv_widen", None, 2, 6, flags="w")
+VARIANTS["conv.to_ruint"]["mboth"] = True      # the model returns (with reset, without reset): both must equal the implementation
+VARIANTS["conv.from_ruint"]["mres"] = 1
+VARIANTS["conv.from_rint"]["mres"] = 1
+VARIANTS["conv.widen"]["mskip"] = 1            # the model (sext) gives the second token only
+VARIANTS["s.mod_n.a"]["model"] = "smod_n1"
+
+# --- parts 3, 4, 5 (harness/c06_native.C): every overload with a NATIVE operand, for every native type
+# type -> (harness part, lowest value, highest value, signed, bits); double carries integers up to 2^53
+NTYPES = {"u8": (3, 0, 2**8 - 1, False, 8), "u16": (3, 0, 2**16 - 1, False, 16), "u32": (3, 0, 2**32 - 1, False, 32),
+          "u64": (3, 0, 2**64 - 1, False, 64),
+          "i8": (4, -2**7, 2**7 - 1, True, 8), "i16": (4, -2**15, 2**15 - 1, True, 16), "i32": (4, -2**31, 2**31 - 1, True, 32),
+          "i64": (4, -2**63, 2**63 - 1, True, 64),
+          "bool": (5, 0, 1, False, 1), "ull": (5, 0, 2**64 - 1, False, 64), "ll": (5, -2**63, 2**63 - 1, True, 64),
+          "dbl": (5, -2**53, 2**53, True, 53)}
+# op -> (model op, result tokens compared with the oracle, tokens compared with the model)
+NOPS = {"addf": ("add_w", 2, 2), "addo": ("op_add_si", 1, 1), "subf": ("sub_w", 2, 2), "subo": ("op_sub2", 2, 2),
+        "mulf": ("lmul_w", 2, 2), "mulo": ("op_mul_si", 1, 1), "divf": ("div_w", 2, 2), "divo": ("op_div_si", 1, 1),
+        "modo": ("op_mod_w", 1, 1), "sdivo": ("sdiv_q_si", 1, 1), "cmp": ("cmp_n", 2, 2), "bit": ("bit_n", 4, 3),
+        "ctor": ("ctor_n", 3, 1), "shl": ("shl", 1, 1), "shr": ("shr2", 2, 2), "expw": ("exp_mod_n", 1, 1)}
+for _ty, (_part, _lo, _hi, _sg, _bits) in NTYPES.items():
+    for _op, (_m, _nres, _mres) in NOPS.items():
+        if (_op in ("shl", "shr") and _ty == "dbl") or (_op == "expw" and (_sg or _ty == "bool")):
+            continue
+        VARIANTS["nat.%s.%s" % (_op, _ty)] = dict(_v(_m, "nat:%s:%s" % (_op, _ty), None, _nres, _part), mres=_mres)
+VARIANTS["nat.cast"] = dict(_v("cast", "nat:cast:", None, 9, 3))
+VARIANTS["nat.consts"] = dict(_v("maxconst", "nat:consts:", None, 5, 3), mres=3)
+
 MODEL_PICK = {"divr": 1, "divr_w": 1}      # first model token compared (the model returns (q, r), the call form only r)
 DEC_RESULTS = {"cmp", "cmp_w", "cmp_si", "scmp", "scmp_si", "scmp_w", "ruint_to_mpz", "rint_to_mpz"}   # decimal result tokens
 
@@ -344,7 +379,113 @@ def oracle(spec, K, a):
         return [(sval(a[0], K) ** 2) % (Bk * Bk)]
     if spec == "sext":
         return [sval(a[0], K) % (Bk * Bk)]
+    if spec.startswith("nat:"):
+        return oracle_native(spec, K, a)
+    if spec == "conv_to_ruint" or spec == "conv_to_rint":
+        return [a[1] % Bk]
+    if spec == "conv_from_ruint":
+        return [a[1], 0, 0]                       # value, GMP blocks still allocated after ruint_to_mpz_t + mpz_clear, after Integer forms
+    if spec == "conv_from_rint":
+        return [sval(a[1] % Bk, K), 0, 0]
+    if spec == "conv_copies":
+        return [a[1]]
+    if spec == "conv_widen":
+        return [a[1] % Bk, sval(a[1] % Bk, K) % (Bk * Bk)]
     raise KeyError(spec)
+
+
+def wrap_native(v, ty):
+    """the 64-bit two's complement pattern of the value v converted to the native type ty (what the harness prints)"""
+    part, lo, hi, sg, bits = NTYPES[ty]
+    if ty == "bool":
+        return 1 if v else 0
+    if ty == "dbl":
+        return v % W64
+    v %= 1 << bits
+    if sg and v >= 1 << (bits - 1):
+        v -= 1 << bits
+    return v % W64
+
+
+def oracle_native(spec, K, a):
+    _, op, ty = spec.split(":")
+    n = 1 << K
+    Bk = 1 << n
+    x = a[0] % Bk
+    if op == "cast":
+        u = [x % (1 << b) for b in (8, 16, 32, 64)]
+        sg = [(v - (1 << b) if v >= 1 << (b - 1) else v) % W64 for v, b in zip(u, (8, 16, 32, 64))]
+        return u + sg + [1 if x else 0]
+    if op == "consts":
+        c31 = SRC_CONST.get("thirtyonepointfive", 3037000499)
+        fl = c31 if K == 6 else c31 << ((1 << (K - 1)) - 32)
+        return [1 << (1 << (K - 1)), Bk - 1, fl, (Bk - 1) // 2, fl]
+    c = a[1]
+    sx = sval(x, K)
+    if op == "addf":
+        return [(x + c) % Bk, (x + c) // Bk]
+    if op == "addo":
+        return [(x + c) % Bk]
+    if op == "subf":
+        return [(x - c) % Bk, 1 if x < c else 0]
+    if op == "subo":
+        return [(x - c) % Bk, (c - x) % Bk]
+    if op == "mulf":
+        return [(x * c) % Bk, (x * c) // Bk]
+    if op == "mulo":
+        return [(x * c) % Bk]
+    if op == "divf":
+        return None if c <= 0 else [x // c, wrap_native(x % c, ty)]
+    if op == "divo":
+        return None if c == 0 else [tdiv(x, c) % Bk]
+    if op == "modo":
+        return None if c <= 0 else [x % c]
+    if op == "sdivo":
+        return None if c == 0 else [tdiv(sx, c) % Bk]
+    if op == "cmp":
+        return [sgn(x - c), sgn(sx - c)]
+    if op == "bit":
+        cw = c % W64                              # limb(c): only the lowest limb takes part
+        return [x | cw, x ^ cw, x & cw, wrap_native(x & cw, ty) if ty != "bool" else (1 if x & cw else 0)]
+    if op == "ctor":
+        return [c % Bk, c % Bk, wrap_native(c, ty) if a[2] else None]
+    if op == "shl":
+        return [0 if c >= n else (x << c) % Bk]
+    if op == "shr":
+        cc = min(c, 2 * n)
+        return [x >> cc, (sx >> cc) % Bk]
+    if op == "expw":
+        return None if a[2] == 0 else [pow(x, c, a[2])]
+    raise KeyError(spec)
+
+
+SRC_CONST = {}          # constants printed by the compiled harness (filled by main)
+# the call forms run (and cross-checked against each other) inside one case of harness/c06_native.C / c06_conv.C
+NAT_FORMS = {
+    "addf": "add(r,a,b,T) add(r,a,T) add(a,b,T) add(a,T), the same four on rint<K>",
+    "addo": "a+T T+a a+=T rint+=T",
+    "subf": "sub(r,a,b,T) sub(r,a,T) sub(a,b,T) sub(a,T), the same four on rint<K>",
+    "subo": "a-T a-=T rint-=T T-a",
+    "mulf": "lmul(limb&,a,b,T) mul(a,b,T) mul(a,T) lmul(limb&,a,a,T) mul(rint,rint,T) mul(rint,T)",
+    "mulo": "a*T T*a a*=T rint*T T*rint rint*=T",
+    "divf": "div(q,T&,a,T) div_q(q,a,T) div_r(T&,a,T) div(a,T&,a,T)",
+    "divo": "a/T a/=T", "modo": "a%T a%=T", "sdivo": "div_q(rint,rint,T) rint/T rint/=T",
+    "cmp": "cmp(a,T) and == != < <= > >= in both operand orders, for ruint<K> and rint<K>",
+    "bit": "a|T a|=T a^T a^=T a&T a&=T rint^=T rint&=T",
+    "ctor": "ruint<K>(T) a=T a=ruint<K>(T) rint<K>(T) rint=T (T)ruint (T)rint",
+    "shl": "left_shift(a,b,T) a<<T a<<=T left_shift(a,a,T) rint<<T rint<<=T",
+    "shr": "right_shift(a,b,T) a>>T a>>=T right_shift(a,a,T) rint>>T rint>>=T",
+    "expw": "exp_mod(a,b,T,n)",
+    "cast": "operator T() of ruint<K> and rint<K> for bool, (un)signed char/short/int/long/long long, float, double",
+    "consts": "ruint<K>::maxCardinality maxElement maxFFLAS, rint<K>::maxElement maxCardinality",
+    "conv.to_ruint": "mpz_to_ruint mpz_t_to_ruint Caster(ruint&,Integer) istream>>ruint ruint=Integer (ruint)Integer ruint(Integer) "
+                     "placement-new ruint(Integer) ruint(const char*) mpz_to_ruint twice on one object",
+    "conv.to_rint": "mpz_to_rint mpz_t_to_rint Caster(rint&,Integer) istream>>rint Integer::operator rint",
+    "conv.rint_from_integer": "rint<K>(Integer) rint=(rint)Integer",
+    "conv.from_ruint": "ruint_to_mpz ruint_to_mpz_t(+GMP block accounting) Integer(ruint) Caster(Integer&,ruint) ostream<<ruint dec/hex, round trip",
+    "conv.from_rint": "rint_to_mpz rint_to_mpz_t(+GMP block accounting) Integer(rint) Caster(Integer&,rint) ostream<<rint dec/hex, round trip",
+    "conv.copies": "operator= copy copy(a,a) copy-constructor reset default constructor on used memory, for ruint<K> and rint<K>",
+    "conv.widen": "ruint<K+1>(ruint<K>) rint<K+1>(rint<K>) on used memory"}
 
 
 # ------------------------------------------------------------------------------------------------ generators
@@ -822,22 +963,39 @@ def fmt_arg(x):
 
 
 def fmt_exp(spec, vals):
+    if spec in ("conv_from_ruint", "conv_from_rint") or spec.startswith("nat:cmp:"):
+        return [str(v) for v in vals]
+    if spec.startswith("nat:ctor:") and len(vals) == 3 and vals[2] is None:
+        return fmt_exp("", vals[:2]) + ["x"]
     if spec in DEC_RESULTS:
         return [str(v) for v in vals]
     return [tok(hex(v)[2:]) if v >= 0 else "-" + tok(hex(-v)[2:]) for v in vals]
 
 
-SITES = {"scmp_si": "RecInt::cmp(rint<K>, signed word)", "sadd_si": "RecInt::operator+=(rint<K>, signed word)",
+SITES = {"conv_to_rint:conv.rint_from_integer": "RecInt::rint<K>::rint(const Givaro::Integer&)",
+         "scmp_si": "RecInt::cmp(rint<K>, signed word)", "sadd_si": "RecInt::operator+=(rint<K>, signed word)",
          "ssub_si": "RecInt::operator-=(rint<K>, signed word)", "smul_si": "RecInt::operator*(rint<K>, signed word)",
          "sshr": "RecInt::operator>>(rint<K>, count)", "slsquare": "RecInt::lsquare(rint<K+1>, rint<K>)"}
 
 
 def site_of(v, spec):
+    if v == "conv.rint_from_integer":
+        return "RecInt::rint<K>::rint(const Givaro::Integer&)"
+    if v in ("nat.subf.dbl", "nat.subo.dbl", "nat.addo.dbl"):
+        return "RecInt::sub(ruint<6>, double)"
+    if v.startswith("nat.ctor.i") or v == "nat.ctor.ll":
+        return "RecInt::ruint<K>::ruint(signed T)"
     return SITES.get(spec, "RecInt::" + v)
 
 
 def klass_of(v, spec, K, a):
     """input class used to key known findings narrowly"""
+    if v == "conv.rint_from_integer":
+        return "Integer<0" if a[1] < 0 else "K=%d" % K
+    if v in ("nat.subf.dbl", "nat.subo.dbl", "nat.addo.dbl"):
+        return "K=6,double" if K == 6 else "K=%d" % K
+    if v == "nat.ctor.i32" or v == "nat.ctor.i64" or v == "nat.ctor.ll":
+        return "most-negative" if a[1] == NTYPES[v.split(".")[2]][1] else "K=%d" % K
     if v.startswith("shl.u8") or v.startswith("shr.u8"):
         return "K>=8,count>=2" if K >= 8 and a[1] >= 2 else "K=%d" % K
     if spec == "scmp_si":
@@ -1047,6 +1205,180 @@ def extra_count(v, info, K, tier):
     return 0
 
 
+# ------------------------------------------------------------------------------------------------ directed cases
+# Deterministic case classes (the same for every seed): limb patterns x native types x native values.
+def limb_patterns(K):
+    """(label, value): all-ones runs of EVERY length starting at limb 0 (alone / with a small limb above / with a zero limb and
+    then ones above), a single set limb at every position (1, 2^63, 2^64-1), the two alternating patterns, boundary values"""
+    n = 1 << (K - 6)
+    M = W64 - 1
+    Bk = 1 << (1 << K)
+    core, rest = [], []
+    for j in range(1, n + 1):
+        run = (1 << (64 * j)) - 1
+        (core if j in (1, 2, 3, n // 2, n - 1, n) else rest).append(("ones[0..%d)" % j, run))
+        if j < n:
+            (core if j in (1, 3) else rest).append(("ones[0..%d)+5" % j, run | (5 << (64 * j))))
+            if j + 1 < n:
+                rest.append(("ones[0..%d)+gap+ones" % j, run | ((Bk - 1) >> (64 * (j + 1)) << (64 * (j + 1)))))
+    for i in range(n):
+        for vv in (1, 1 << 63, M):
+            (core if (i in (0, n - 1) and vv != M) or (i == 1 and vv == 1) else rest).append(("limb%d=%x" % (i, vv), vv << (64 * i)))
+    alt0 = sum(M << (64 * i) for i in range(0, n, 2))
+    alt1 = sum(M << (64 * i) for i in range(1, n, 2))
+    core += [("alt-even", alt0), ("alt-odd", alt1), ("zero", 0), ("max", Bk - 1)]
+    rest += [("one", 1), ("max-1", Bk - 2), ("half", Bk // 2), ("half-1", Bk // 2 - 1)]
+    seen, c2, r2 = set(), [], []
+    for lst, out in ((core, c2), (rest, r2)):
+        for lab, vv in lst:
+            if vv not in seen:
+                seen.add(vv); out.append((lab, vv))
+    return c2, r2
+
+
+def native_values(ty, op):
+    part, lo, hi, sg, bits = NTYPES[ty]
+    if ty == "bool":
+        return [1] if op in ("divf", "divo", "modo", "sdivo") else [1, 0]
+    vals = [1, hi, 2, hi - 1, (hi + 1) // 2, 3, 10, 0]
+    if sg:
+        neg = [-1, lo + 1, -2, -3, -(hi // 2), -10]
+        if op == "ctor" and ty != "dbl":
+            neg.append(lo)                               # the most negative value of the type
+        if op in ("addo", "subo", "mulo", "divo", "sdivo", "cmp", "ctor"):
+            vals = [vals[0], neg[0], vals[1], neg[1]] + vals[2:] + neg[2:]
+    if op in ("divf", "modo"):
+        vals = [x for x in vals if x > 0]
+    if op in ("divo", "sdivo"):
+        vals = [x for x in vals if x != 0]
+    return vals
+
+
+def shift_counts(K, ty):
+    part, lo, hi, sg, bits = NTYPES[ty]
+    nb = 1 << K
+    pts = [0, 1, 2, 31, 32, 63, 64, 65, 127, 128, 129, nb // 2 - 1, nb // 2, nb // 2 + 1, nb - 1, nb, nb + 1, 2 * nb - 1, 2 * nb, 2 * nb + 1, hi, hi - 1]
+    out = []
+    for c in pts:
+        if 0 <= c <= hi and c not in out:
+            out.append(c)
+    return out
+
+
+def directed_cases(rng, tier):
+    """cases of the native-operand and conversion forms.  Everything except the few marked random draws is the same for every seed."""
+    out = []            # (variant, K, args, run_model)
+    q = tier == "quick"
+    types = sorted(NTYPES)
+    for K in KS:
+        n = 1 << K
+        Bk = 1 << n
+        core, rest = limb_patterns(K)
+        for oi, op in enumerate(sorted(NOPS)):
+            tys = [t for t in types if "nat.%s.%s" % (op, t) in VARIANTS]
+            heavy = op in ("divf", "divo", "modo", "sdivo")
+            if op == "ctor":
+                for t in tys:
+                    for c in native_values(t, op):
+                        if t == "dbl" and c < 0 and K == 6:
+                            continue                      # ruint<6>(double) is static_cast<limb>(b): undefined for b < 0
+                        out.append(("nat.ctor." + t, K, [0, c, 0 if (t == "dbl" and c < 0) else 1], True))
+                continue
+            if op in ("shl", "shr"):
+                xs = [Bk - 1, sum((W64 - 1) << (64 * i) for i in range(0, n // 64, 2)) | (Bk >> 1) | 1]
+                for t in tys:
+                    for ci, c in enumerate(shift_counts(K, t)):
+                        out.append(("nat.%s.%s" % (op, t), K, [xs[ci % 2], c], True))
+                        if ci % 4 == 0:
+                            out.append(("nat.%s.%s" % (op, t), K, [xs[(ci + 1) % 2], c], True))
+                continue
+            if op == "expw":
+                if K > 10:
+                    continue
+                mods = [Bk - 1, (Bk >> 1) + 1, 1, (1 << (n // 2)) + 1]
+                for ti, t in enumerate(tys):
+                    hi = NTYPES[t][2]
+                    for ci, c in enumerate([0, 1, 2, hi, (hi + 1) // 2, (hi + 1) // 3, 65537 % (hi + 1)]):
+                        out.append(("nat.expw." + t, K, [(3 + ci) if ci % 2 else core[(ci + ti) % len(core)][1], c, mods[(ci + ti) % len(mods)]], K <= 8))
+                continue
+            for ti, t in enumerate(tys):
+                vals = native_values(t, op)
+                if t == "dbl" and (op == "bit" or (K == 6 and op == "cmp")):
+                    vals = [x for x in vals if x >= 0]   # limb(negative double) / ruint<6>(negative double) are undefined conversions
+                pats = list(core)
+                # the remaining patterns are dealt round-robin over the types: every pattern meets every operation at every K
+                pats += [pt for pi, pt in enumerate(rest) if (pi + oi) % len(tys) == ti]
+                for pi, (lab, x) in enumerate(pats):
+                    c = vals[(pi + ti) % len(vals)]
+                    run_model = not (heavy and K >= 10 and pi % 4)
+                    out.append(("nat.%s.%s" % (op, t), K, [x, c], run_model))
+                    if pi < 4 and len(vals) > 1:        # the first patterns also with the next value (carry / borrow with 1 and with max)
+                        out.append(("nat.%s.%s" % (op, t), K, [x, vals[(pi + ti + 1) % len(vals)]], run_model))
+                if op == "cmp":
+                    for c in vals:                      # operands equal / adjacent to the native value, with and without high limbs
+                        for x in (c, c + 1, c - 1, c + W64, c % Bk, (c - 1) % Bk, (c + 1) % Bk, Bk // 2 + abs(c)):
+                            if 0 <= x < Bk:
+                                out.append(("nat.cmp." + t, K, [x, c], True))
+        for lab, x in core + rest:
+            out.append(("nat.cast", K, [x], True))
+        for x in [0x80, 0xff7f, 0x8000, 0xffff7fff, 0x80000000, 0x7fffffffffffffff, 1 << 63, (1 << 64) + 0x80]:
+            out.append(("nat.cast", K, [x % Bk], True))
+        out.append(("nat.consts", K, [0], True))
+        # ---- conversions on a used destination: prev = garbage / all ones / the previous LARGER value; sources 0, small, one limb
+        # short of full, full, and (to_ruint) wider than the destination
+        M = W64 - 1
+        prevs = [Bk - 1, int("a5" * (n // 8), 16), Bk >> 1, sum(M << (64 * i) for i in range(1, n // 64, 2)) | 1, 0]
+        srcs = [0, 5, M, W64, (1 << (n - 64)) - 1 if n > 64 else 1, Bk >> 1, Bk - 1, (1 << (n // 2)) + 1]
+        for pi, pv in enumerate(prevs):
+            for si, sv in enumerate(srcs):
+                if q and K >= 10 and (pi + si) % 2:
+                    continue
+                out.append(("conv.to_ruint", K, [pv, sv], True))
+                ssv = sval(sv, K)
+                out.append(("conv.to_rint", K, [pv, ssv], True))
+                out.append(("conv.to_rint", K, [pv, -ssv if ssv > -(Bk >> 1) else ssv], True))
+                out.append(("conv.copies", K, [pv, sv % Bk], False))
+                out.append(("conv.rint_from_integer", K, [pv, ssv], False))
+                out.append(("conv.rint_from_integer", K, [pv, -ssv if ssv > -(Bk >> 1) else ssv], False))
+            out.append(("conv.to_ruint", K, [pv, Bk + 5 + pi], True))
+            out.append(("conv.to_ruint", K, [pv, (Bk << 70) + (Bk >> 3)], True))
+        prevm = [0, 5, -5, Bk * Bk + 12345, -(Bk * Bk) - 7, W64]
+        for pi, pm in enumerate(prevm):
+            for si, sv in enumerate(srcs):
+                if q and K >= 10 and (pi + si) % 2:
+                    continue
+                out.append(("conv.from_ruint", K, [pm, sv % Bk], True))
+                out.append(("conv.from_rint", K, [pm, sv % Bk], True))
+                out.append(("conv.from_rint", K, [pm, (-sv) % Bk], True))
+        if K <= 10:
+            for sv in srcs + [Bk - 2, (Bk >> 1) + 1]:
+                out.append(("conv.widen", K, [0, sv % Bk], True))
+        for i in range(4 if q else 200):                # random draws on top
+            pv, sv = g_int(rng, K), g_int(rng, K) >> rng.below(n)
+            out.append(("conv.to_ruint", K, [pv, sv], True))
+            out.append(("conv.to_rint", K, [pv, sval(sv, K)], True))
+            out.append(("conv.from_ruint", K, [sval(pv, K), sv], True))
+            out.append(("conv.from_rint", K, [sval(pv, K), g_int(rng, K)], True))
+    return out
+
+
+def model_args(v, K, a):
+    """argument list of the model line for a case (native forms carry the signedness / width of the native type)"""
+    if v.startswith("nat.") and v.count(".") == 2:
+        _, op, ty = v.split(".")
+        part, lo, hi, sg, bits = NTYPES[ty]
+        if op in ("cmp", "ctor"):
+            return [1 if sg else 0] + list(a[:2])
+        if op == "expw":
+            return [bits] + list(a)
+        return list(a[:2])
+    if v == "nat.consts":
+        return [SRC_CONST.get("thirtyonepointfive", 0)]
+    if v == "conv.widen":
+        return [a[1]]
+    return a
+
+
 NO_MODEL = set()        # indices of the cases of the current run that are not given to the model
 
 
@@ -1054,6 +1386,8 @@ def build_cases(rng, tier):
     cases = []
     NO_MODEL.clear()
     for v, info in sorted(VARIANTS.items()):
+        if info["gen"] is None:
+            continue              # generated by directed_cases
         for K in KS:
             fl = info["flags"]
             if "w" in fl and K == 11:
@@ -1072,6 +1406,10 @@ def build_cases(rng, tier):
             for i in range(extra_count(v, info, K, tier)):
                 NO_MODEL.add(len(cases))
                 cases.append((v, K, gen_args(rng, K, info["gen"], info["spec"])))
+    for v, K, a, run_model in directed_cases(rng, tier):
+        if not run_model:
+            NO_MODEL.add(len(cases))
+        cases.append((v, K, a))
     return cases
 
 
@@ -1114,6 +1452,74 @@ def _load_known():
 vf.load_known = _load_known
 
 
+def read_define(name, text):
+    m = re.search(r"#define\s+%s\s+(.*)" % re.escape(name), text)
+    return m.group(1).split("//")[0].strip() if m else None
+
+
+def c_int(txt):
+    """integer value of a C literal / limb(0x..) expression of recdefine.h"""
+    if txt is None:
+        return None
+    m = re.search(r"(0x[0-9a-fA-F]+|\d+)", txt)
+    return int(m.group(1), 0) if m else None
+
+
+def source_constants(chk, native_bin, drv):
+    """Constants the theorems depend on are taken from /repo on EVERY run, twice: from the text of recdefine.h and from what the
+    compiled implementation prints (harness '#' lines); both must agree with each other and with the model's own size
+    recursion (nlimbs / nbits) and with the hypotheses of the theorems that mention them."""
+    txt = open(os.path.join(vf.REPO, "src/kernel/recint/recdefine.h")).read()
+    rc, out, err = vf.run_lines(native_bin, "", timeout=600)
+    printed = {}
+    sizes = {}
+    for l in out:
+        t = l.split()
+        if l.startswith("#size"):
+            sizes[int(t[1])] = tuple(int(x) for x in t[2:])
+        elif l.startswith("#"):
+            t[0] = t[0][1:]
+            for i in range(0, len(t) - 1, 2):
+                printed[t[i]] = t[i + 1]
+    src = {"thr": c_int(read_define("__RECINT_THRESHOLD_KARA", txt)), "limb_bits": c_int(read_define("__RECINT_LIMB_BITS", txt)),
+           "limb_size": c_int(read_define("__RECINT_LIMB_SIZE", txt)), "minusone": c_int(read_define("__RECINT_MINUSONE", txt)),
+           "maxpowtwo": c_int(read_define("__RECINT_MAXPOWTWO", txt)),
+           "thirtyonepointfive": c_int(read_define("__RECINT_THIRTYONEPOINTFIVE", txt))}
+    comp = {}
+    try:
+        comp = {"thr": int(printed["thr"]), "limb_bits": int(printed["limb_bits"]), "limb_size": int(printed["limb_size"]),
+                "minusone": int(printed["minusone"], 16), "maxpowtwo": int(printed["maxpowtwo"], 16),
+                "thirtyonepointfive": int(printed["thirtyonepointfive"]), "sizeof_limb": int(printed["sizeof_limb"]),
+                "fast128": int(printed["fast128"])}
+    except (KeyError, ValueError):
+        chk.broke("the compiled harness did not print the RecInt constants", "\n".join(out[:20]) + err[-500:])
+        return
+    SRC_CONST.update(comp)
+    chk.cov["constants_from_source_text"] = src
+    chk.cov["constants_from_compiled_implementation"] = dict(comp, sizes={str(k): list(v) for k, v in sizes.items()})
+    for k in src:
+        if src[k] is not None and src[k] != comp.get(k):
+            chk.broke("constant %s: recdefine.h text says %s, the compiled implementation uses %s (the model is fed the compiled value; "
+                      "a second definition or a build flag overrides the header)" % (k, src[k], comp.get(k)))
+    # what the model and the theorems assume of these constants
+    want = {"limb_bits": 64, "limb_size": 6, "minusone": 2**64 - 1, "maxpowtwo": 2**63, "sizeof_limb": 8, "fast128": 0}
+    for k, w in want.items():
+        if comp.get(k) != w:
+            chk.broke("constant %s = %s: the model (Model.v: W = 2^64, Wm1, the ruint<7> clauses written with add_ssaaaa) assumes %s" % (k, comp.get(k), w))
+    c31 = comp["thirtyonepointfive"]
+    if not (0 <= c31 < 2**32 and 2 * c31 * c31 < 2**64):
+        chk.broke("__RECINT_THIRTYONEPOINTFIVE = %d does not satisfy the hypotheses of C06_max_constants_exact (0 <= c < 2^32, 2*c*c < 2^64)" % c31)
+    # NBLIMB<K> / NBBITS<K> / sizeof of the compiled templates against the model's recursion
+    if drv:
+        rc2, mo, e2 = vf.run_lines(drv, "".join("sizes %d %d\n" % (K, comp["thr"]) for K in range(6, 13)), timeout=600)
+        for K, l in zip(range(6, 13), mo):
+            t = l.split()
+            ms = (int(t[0], 16), int(t[1], 16)) if len(t) == 2 else None
+            if K not in sizes or ms is None or ms != sizes[K][:2] or sizes[K][2] != 8 * ms[0] or sizes[K][3] != 8 * ms[0]:
+                chk.broke("size constants of ruint<%d>: compiled NBLIMB/NBBITS/sizeof(ruint)/sizeof(rint) = %s, model nlimbs/nbits = %s"
+                          % (K, sizes.get(K), ms))
+
+
 def main(tier, replay=None):
     chk = vf.Check("C06", tier, "proof")
     rng = vf.Rng(spread_seed(chk.seed))
@@ -1130,23 +1536,32 @@ def main(tier, replay=None):
                        "__RECINT_THRESHOLD_KARA read from recdefine.h = %s and passed to the model" % thr]
     ncpu = max(2, min(12, vf.NCPU - 2))
     # 1. proofs + executables, built concurrently (the Coq build dominates)
-    with ThreadPoolExecutor(3) as ex:
-        f_coq = ex.submit(vf.coq_check_props, AREA)
-        f_h1 = ex.submit(vf.build_harness, "c06_recint.C", ("-DC06_PART=1",), False, (), 900, "c06_recint_p1")
-        f_h2 = ex.submit(vf.build_harness, "c06_recint.C", ("-DC06_PART=2",), False, (), 900, "c06_recint_p2")
+    with ThreadPoolExecutor(7) as ex:
+        f_coq = ex.submit(vf.coq_check_props, AREA, "Properties.v", 2400)
+        f_h1 = ex.submit(vf.build_harness, "c06_recint.C", ("-DC06_PART=1",), False, (), 1800, "c06_recint_p1")
+        f_h2 = ex.submit(vf.build_harness, "c06_recint.C", ("-DC06_PART=2",), False, (), 1800, "c06_recint_p2")
+        f_n = [ex.submit(vf.build_harness, "c06_native.C", ("-DC06_NPART=%d" % i,), False, (), 1800, "c06_native_p%d" % i) for i in (1, 2, 3)]
+        f_cv = ex.submit(vf.build_harness, "c06_conv.C", (), False, (), 1800, "c06_conv")
         res = f_coq.result()
         h1, l1 = f_h1.result()
         h2, l2 = f_h2.result()
+        hn = [f.result() for f in f_n]
+        hcv, lcv = f_cv.result()
     chk.proof_result(res, AREA)
+    binaries = {1: h1, 2: h2, 3: hn[0][0], 4: hn[1][0], 5: hn[2][0], 6: hcv}
     drv, l0 = vf.ocaml_build(AREA) if os.path.exists(os.path.join(vf.coq_dir(AREA), "ocaml", "model.ml")) else (None, "extraction did not run")
     if drv is None:
         chk.broke("extracted model driver does not build", l0)
-    if h1 is None or h2 is None:
-        chk.broke("implementation harness does not compile against /repo", (l1 or "") + (l2 or ""))
+    if any(b is None for b in binaries.values()):
+        chk.broke("implementation harness does not compile against /repo",
+                  "\n".join(x or "" for x in [l1, l2, hn[0][1], hn[1][1], hn[2][1], lcv])[-6000:])
         return chk.finish()
+    source_constants(chk, binaries[3], drv)
     if thr is None:
         chk.broke("cannot read __RECINT_THRESHOLD_KARA from recdefine.h")
         thr = 10
+    if SRC_CONST.get("thr") not in (None, thr):
+        thr = SRC_CONST["thr"]          # (already reported by source_constants) the model follows what was compiled
     # 2. cases
     if replay:
         rp = json.load(open(replay))
@@ -1157,14 +1572,14 @@ def main(tier, replay=None):
     else:
         cases = build_cases(rng, tier)
     line = lambda name, K, a: "%s %d %d %s\n" % (name, K, thr, " ".join(fmt_arg(x) for x in a))
-    idx = {1: [], 2: []}
+    idx = {p: [] for p in binaries}
     for i, (v, K, a) in enumerate(cases):
         idx[VARIANTS[v]["part"]].append(i)
     iout = [None] * len(cases)
-    with ThreadPoolExecutor(2) as ex:
-        futs = {p: ex.submit(run_split, (h1 if p == 1 else h2), [line(cases[i][0], cases[i][1], cases[i][2]) for i in idx[p]],
-                             max(1, ncpu // 2), 1500) for p in (1, 2)}
-        for p in (1, 2):
+    with ThreadPoolExecutor(len(binaries)) as ex:
+        futs = {p: ex.submit(run_split, binaries[p], [line(cases[i][0], cases[i][1], cases[i][2]) for i in idx[p]],
+                             max(1, ncpu // 3), 2400) for p in binaries}
+        for p in binaries:
             rc, out, err = futs[p].result()
             if rc != 0:
                 chk.broke("implementation harness part %d failed (a crash or a hang is a failure of the property's operations "
@@ -1174,7 +1589,7 @@ def main(tier, replay=None):
     midx = [i for i, (v, K, a) in enumerate(cases) if VARIANTS[v]["model"] and i not in NO_MODEL]
     mout = {}
     if drv:
-        rc, out, err = run_split(drv, [line(VARIANTS[cases[i][0]]["model"], cases[i][1], cases[i][2]) for i in midx], ncpu, 2400)
+        rc, out, err = run_split(drv, [line(VARIANTS[cases[i][0]]["model"], cases[i][1], model_args(*cases[i])) for i in midx], ncpu, 3000)
         if rc != 0:
             chk.broke("model driver failed", err)
         else:
@@ -1211,12 +1626,18 @@ def main(tier, replay=None):
                 chk.fail_input(site_of(v, spec), kl, case, exp, iout[i],
                                "implementation differs from integer arithmetic reduced to 2^K bits")
         if i in mout and not bad_spec:      # a failing input is reported once, not again as a correspondence break
-            mg = [tok(t) for t in mout[i].split()][MODEL_PICK.get(spec, 0):][:nres]
+            mres = info.get("mres", nres)
+            mg = [tok(t) for t in mout[i].split()][MODEL_PICK.get(spec, 0):][:mres]
             ncorr += 1
-            if mg != got:
+            skip = info.get("mskip", 0)
+            gotm, expm = got[skip:skip + mres], (exp[skip:skip + mres] if exp is not None else None)
+            if info.get("mboth"):               # two model results (with / without the reset): each must be the implementation's
+                mg = [tok(t) for t in mout[i].split()]
+                gotm, expm = got[:1] * len(mg), (exp[:1] * len(mg) if exp is not None else None)
+            if mg != gotm:
                 chk.broke("correspondence model/implementation differs on %s K=%d args=%s: model=%s impl=%s"
                           % (v, K, [fmt_arg(x) for x in a], mout[i], iout[i]))
-            if exp is not None and mg != exp:
+            if exp is not None and mg != expm:
                 chk.broke("extracted model differs from the specification oracle on %s (%s) K=%d args=%s: model=%s spec=%s"
                           % (info["model"], v, K, [fmt_arg(x) for x in a], mout[i], exp))
     if len(chk.broken) > 20:
@@ -1233,4 +1654,15 @@ def main(tier, replay=None):
     chk.cov["branch_hits"] = hits
     chk.cov["expected_branches_not_hit"] = ["%s: %s" % (sp, lab) for sp, lab in EXPECTED_BRANCHES if not hits.get(sp, {}).get(lab)]
     chk.cov["cases_without_model_run"] = len(NO_MODEL)
+    per_form = {}
+    for v, K, a in cases:
+        per_form[v] = per_form.get(v, 0) + 1
+    chk.cov["cases_per_call_form"] = per_form
+    chk.cov["call_forms_inside_one_native_case"] = NAT_FORMS
+    chk.cov["native_types"] = sorted(NTYPES)
+    chk.cov["directed_case_classes"] = ("deterministic for every seed: per K, all-ones runs of every length from limb 0 (alone / +small limb above / "
+                                        "+zero limb then ones), a single set limb (1, 2^63, 2^64-1) at every position, both alternating patterns, 0, 1, max, "
+                                        "max-1, 2^(n-1), 2^(n-1)-1; x every native type x native values {1, max, 2, max-1, (max+1)/2, 3, 10, 0, -1, min+1, ..}; "
+                                        "conversions with previous destination in {all ones, 0xa5.., 2^(n-1), alternating, 0} x sources {0, 5, 2^64-1, 2^64, "
+                                        "2^(n-64)-1, 2^(n-1), 2^n-1, 2^(n/2)+1, wider than the destination}")
     return chk.finish()
